@@ -271,6 +271,21 @@ def streams(tier, rng):
         Stream("display_throughput", "thr", thr, model_input=with_impl, nontrivial=nt_num,
                hist=dict(Counter("kind=" + c.split()[0] for c in thr))),
     ]
+    # ---- throughput with explicit precision / width (the precision is significant figures, never a maximum length)
+    thrw = []
+    tprecs = ["-", "0", "1", "2", "3", "4", "5", "6"]
+    twidths = ["-", "0", "3", "8", "13", "24", "40"]
+    base = [c for c in thr if c.split()[1] != "0" and c.split()[2] != "0"]
+    for i, c in enumerate(base[:: (6 if quick else 1)]):
+        thrw.append(f"{c} {tprecs[i % len(tprecs)]} {twidths[(i // len(tprecs)) % len(twidths)]}")
+    for c in ("3 1234 1000000000 0", "0 1048576 1000000 1", "1 0 5 0", "2 7 0 0", "3 0 0 1", "0 1500 1000000000000 0"):
+        for pr in tprecs:
+            for w in twidths:
+                thrw.append(f"{c} {pr} {w}")
+    thrw = list(dict.fromkeys(thrw))
+    sts.append(Stream("display_throughput-precision-width", "thrw", thrw, model_input=with_impl, nontrivial=nt_num,
+                      hist=dict(Counter("prec=" + c.split()[4] + ",width=" + c.split()[5] for c in thrw))))
+
     # ---- end to end: process arguments / environment / builder -> config_with_args -> run -> printed table
     e2e = []
     for rep in range(2 if quick else 12):
